@@ -21,18 +21,37 @@ OrElse(S, T) == IF S = {} THEN T ELSE S
 Rep(f, k) == [i \in 1..k |-> f]
 
 \* ---------------------------------------------------------------- random operations (simulation)
-FamStart == <<"init", "init", "init", "init", "init", "init", "init", "init", "register", "use", "shutdown", "migrate", "inject", "maintain", "madd">>
-FamShut == <<"proc", "proc", "proc", "proc", "use", "use", "inject", "maintain", "maintain", "shutdown", "register", "migrate", "withdraw", "init", "madd">>
-FamLife == Rep("register", 6) \o Rep("use", 6) \o Rep("inject", 3) \o Rep("withdraw", 1) \o Rep("fail", 2) \o Rep("maintain", 5)
-           \o Rep("shutdown", 2) \o Rep("proc", 1) \o <<"migrate", "madd", "init">>
-FamMig == Rep("register", 3) \o Rep("use", 1) \o Rep("madd", 5) \o Rep("migrate", 7) \o Rep("shutdown", 1) \o Rep("proc", 2)
-          \o <<"maintain", "inject", "fail">>
-FamMix == FamLife \o FamMig
+\* the families are weighted by what the state makes interesting: registrations while little is registered, first
+\* uses of what is registered, maintenance and shutdown while several storages run, migration runs once
+\* there is something to run; a share of every family goes to arguments that do not apply (error paths)
+FamStart == Rep("init", 10) \o <<"register", "use", "shutdown", "migrate", "inject", "maintain", "madd">>
+FamShut == Rep("proc", 5) \o <<"use", "use", "inject", "maintain", "maintain", "shutdown", "register", "migrate", "withdraw", "init", "madd">>
+FamLife(s) ==
+    LET nreg == Cardinality(s.mem)
+        nrun == Cardinality(s.ctl)
+        idle == {r \in s.mem : ~Running(s, r.n)}
+        injrun == {c \in s.ctl : c.t = "injected"}
+    IN Rep("register", IF nreg < 2 THEN 8 ELSE IF nreg < 3 THEN 4 ELSE 2)
+       \o Rep("use", IF {r \in idle : r.t # "injected"} # {} THEN 7 ELSE 1)
+       \o Rep("inject", IF {r \in idle : r.t = "injected"} # {} THEN 5 ELSE 1)
+       \o Rep("withdraw", IF injrun # {} THEN 1 ELSE 0)
+       \o Rep("fail", IF nrun >= 2 THEN 3 ELSE IF nrun = 1 THEN 1 ELSE 0)
+       \o Rep("maintain", IF nrun >= 2 THEN 6 ELSE IF nrun = 1 THEN 2 ELSE 1)
+       \o Rep("shutdown", IF nrun >= 2 THEN 2 ELSE 1)
+       \o Rep("proc", IF nreg >= 1 THEN 2 ELSE 0)
+       \o Rep("race", IF Cardinality(idle) >= 2 THEN 4 ELSE IF nreg >= 1 THEN 1 ELSE 0)
+       \o <<"init">>
+FamMig(s) ==
+    LET nmig == Len(s.migs)
+        core == Has(s, "core")
+    IN Rep("register", IF core THEN 1 ELSE 8)
+       \o Rep("madd", IF nmig < 3 THEN 6 ELSE IF nmig < 6 THEN 2 ELSE 1)
+       \o Rep("migrate", IF core /\ nmig > 0 THEN 8 ELSE 1)
+       \o Rep("proc", IF s.diskver > 0 \/ s.memver > 0 THEN 3 ELSE 1)
+       \o <<"use", "shutdown", "inject", "fail">>
 
-TypeBag == <<"plain", "maint", "maint", "disk", "disk", "injected", "injected", "injected", "nostart", "ghost">>
-CoreTypeBag == <<"disk", "disk", "disk", "disk", "plain", "maint", "injected", "nostart">>
-NameBagLife == <<"core", "alpha", "alpha", "alpha", "b_2-X", "b_2-X", "ab", "bad name", "dot.ted">>
-NameBagMig == <<"core", "core", "core", "core", "alpha", "ab">>
+TypeBag == <<"plain", "maint", "maint", "maint", "disk", "disk", "injected", "injected", "injected", "nostart", "ghost">>
+CoreTypeBag == <<"disk", "disk", "disk", "disk", "disk", "plain", "maint", "maint", "injected", "nostart">>
 
 Bounded(f) == IF f = "proc" /\ np >= MaxProcs THEN "use"
               ELSE IF f = "shutdown" /\ st.mod /\ ~st.inited THEN "init"
@@ -45,28 +64,46 @@ RandOp(n) ==
     LET F == IF ~st.up THEN <<"proc">>
              ELSE IF ~st.inited THEN FamStart
              ELSE IF st.shut THEN FamShut
-             ELSE IF Focus = "life" THEN FamLife ELSE IF Focus = "mig" THEN FamMig ELSE FamMix
+             ELSE IF Focus = "life" THEN FamLife(st) ELSE IF Focus = "mig" THEN FamMig(st) ELSE FamLife(st) \o FamMig(st)
         f == Bounded(F[Rnd(1..Len(F), n)])
-        nb == IF Focus = "mig" THEN NameBagMig ELSE NameBagLife
-        nm == nb[Rnd(1..Len(nb), n + 1)]
         regd == {r.n : r \in st.mem}
+        idle == {r.n : r \in {x \in st.mem : ~Running(st, x.n)}}
         inj == {r.n : r \in {x \in st.mem : x.t = "injected"}}
         run == {c.n : c \in st.ctl}
-        pickname(S) == IF Rnd(1..4, n + 2) = 1 THEN Rnd(GoodNames, n + 3) ELSE Rnd(OrElse(S, GoodNames), n + 3)
+        \* mostly a name the operation applies to
+        pickname(S) == IF Rnd(1..8, n + 2) = 1 THEN Rnd(GoodNames, n + 3) ELSE Rnd(OrElse(S, GoodNames), n + 3)
+        sel == Rnd(1..8, n + 1)
+        regname == IF Focus = "mig" /\ ~Has(st, "core") /\ sel <= 7 THEN "core"
+                   ELSE IF sel = 1 THEN Rnd(BadNames, n + 3)
+                   ELSE IF sel <= 5 THEN Rnd(OrElse(GoodNames \ regd, GoodNames), n + 3)
+                   ELSE Rnd(OrElse(regd, GoodNames), n + 3)
     IN CASE f = "proc" -> [Op("proc") EXCEPT !.per = (Rnd(1..4, n + 4) # 1), !.mod = (Rnd(1..5, n + 5) = 1)]
          [] f = "init" -> [Op("init") EXCEPT !.fll = IF st.persist THEN FileFlags(st) ELSE {}]
-         [] f = "register" -> [Op("register") EXCEPT !.n = nm,
-                                  !.t = IF nm = "core" THEN CoreTypeBag[Rnd(1..Len(CoreTypeBag), n + 6)] ELSE TypeBag[Rnd(1..Len(TypeBag), n + 6)],
+         [] f = "register" -> [Op("register") EXCEPT !.n = regname,
+                                  !.t = IF regname = "core" THEN CoreTypeBag[Rnd(1..Len(CoreTypeBag), n + 6)] ELSE TypeBag[Rnd(1..Len(TypeBag), n + 6)],
                                   !.d = Rnd(1..2, n + 7), !.s = (Rnd(1..3, n + 8) = 1)]
-         [] f = "use" -> [Op("use") EXCEPT !.n = pickname(regd)]
-         [] f = "inject" -> [Op("inject") EXCEPT !.n = pickname(inj), !.cap = (Rnd(1..2, n + 9) = 1)]
+         [] f = "use" -> [Op("use") EXCEPT !.n = pickname(IF sel <= 6 THEN idle \ inj ELSE regd)]
+         [] f = "inject" -> [Op("inject") EXCEPT !.n = pickname(IF sel <= 6 THEN inj \cap idle ELSE inj), !.cap = (Rnd(1..3, n + 9) # 1)]
          [] f = "withdraw" -> [Op("withdraw") EXCEPT !.n = pickname(inj \cap run)]
-         [] f = "fail" -> [Op("fail") EXCEPT !.n = pickname(OrElse(run, regd)), !.w = Rnd(Kinds \cup {"shutdown", "shutdown"}, n + 10)]
+         [] f = "fail" -> [Op("fail") EXCEPT !.n = pickname(OrElse(run, regd)), !.w = Rnd(Kinds \cup {"shutdown"}, n + 10)]
          [] f = "maintain" -> [Op("maintain") EXCEPT !.w = Rnd(Kinds, n + 11)]
          [] f = "shutdown" -> Op("shutdown")
+         \* two or three first uses / injections / registrations at the same time, mostly against a shutdown
+         [] f = "race" ->
+              LET Sub(name, nm, t, cap) == [op |-> name, n |-> nm, t |-> t, d |-> 1, s |-> FALSE, cap |-> cap]
+                  safe == {r.n : r \in {x \in st.mem : x.t # "nostart"}}
+                  one(m) == LET k == Rnd(1..8, m)
+                                nm == Rnd(OrElse(IF k <= 6 THEN idle \cap safe ELSE safe, OrElse(GoodNames \ regd, {"none-such"})), m + 1)
+                            IN IF Has(st, nm) /\ Desc(st, nm).t = "injected" THEN Sub("inject", nm, "", Rnd(BOOLEAN, m + 2))
+                               ELSE IF k = 8 THEN Sub("register", Rnd(GoodNames, m + 3), TypeBag[Rnd(1..8, m + 4)], FALSE)
+                               ELSE Sub("use", nm, "", FALSE)
+                  cnt == Rnd(2..3, n + 30)
+                  subs == [i \in 1..cnt |-> one(n + 30 + 5 * i)]
+              IN [Op("race") EXCEPT !.w = IF Rnd(1..2, n + 51) = 1 THEN "gate" ELSE "",
+                                    !.par = IF ~st.mod /\ Rnd(1..4, n + 50) # 1 THEN Append(subs, Sub("shutdown", "", "", FALSE)) ELSE subs]
          [] f = "madd" ->
-              LET len == Rnd({1, 1, 2, 2, 3}, n + 12)
-                  draw(i) == IF Rnd(1..9, n + 12 + i) = 1 THEN 0 ELSE Rnd(1..MaxVer, n + 15 + i)
+              LET len == Rnd({1, 2, 3}, n + 12)
+                  draw(i) == IF Rnd(1..10, n + 12 + i) = 1 THEN 0 ELSE Rnd(1..MaxVer, n + 15 + i)
               IN [Op("madd") EXCEPT !.batch = [i \in 1..len |-> [id |-> nid + i, ver |-> draw(i), sp |-> Rnd(0..2, n + 18 + i)]]]
          [] f = "migrate" ->
               LET ids == MigIds(st)
@@ -88,6 +125,13 @@ BfsOps ==
     \cup {[Op("fail") EXCEPT !.n = "alpha", !.w = w] : w \in {"records", "shutdown"}}
     \cup {[Op("maintain") EXCEPT !.w = w] : w \in {"maintain", "records"}}
     \cup {Op("shutdown")}
+    \cup {[Op("race") EXCEPT !.par = p] : p \in {
+              << [op |-> "use", n |-> "alpha", t |-> "", d |-> 1, s |-> FALSE, cap |-> FALSE],
+                 [op |-> "use", n |-> "alpha", t |-> "", d |-> 1, s |-> FALSE, cap |-> FALSE],
+                 [op |-> "shutdown", n |-> "", t |-> "", d |-> 1, s |-> FALSE, cap |-> FALSE] >>,
+              << [op |-> "use", n |-> "core", t |-> "", d |-> 1, s |-> FALSE, cap |-> FALSE],
+                 [op |-> "inject", n |-> "alpha", t |-> "", d |-> 1, s |-> FALSE, cap |-> TRUE],
+                 [op |-> "register", n |-> "alpha", t |-> "injected", d |-> 1, s |-> FALSE, cap |-> FALSE] >> }}
     \cup {[Op("madd") EXCEPT !.batch = b] : b \in {<<[id |-> nid + 1, ver |-> v, sp |-> 0]>> : v \in 0..2}
                                                \cup {<<[id |-> nid + 1, ver |-> 2, sp |-> 0], [id |-> nid + 2, ver |-> 0, sp |-> 0], [id |-> nid + 3, ver |-> 1, sp |-> 1]>>}}
     \cup {[Op("migrate") EXCEPT !.fails = f, !.vetoes = v] : f \in Sub(MigIds(st) \cap 1..2), v \in Sub(MigIds(st) \cap 2..3)})
